@@ -121,8 +121,19 @@ def _fuses(a, b):
     return False
 
 
+# one text (at least) for every rejection message of scanner.py / parser.py and for every primary form
+FIXED = ["", " ", "1 = 2", "f(x + 1 = 2)", "f(k = 1)", "y[3]", "y[1.5]", "y[True]", "y[a[b]]", "y[x[a]]", "y['a']", "y[a]",
+         "y[a", "y[", "y ~ x ~ z", "y ~", "~ x", "(x", "x)", "f(x", "f(x,", "f(,x)", "{x", "x}", "x +", "+ x", "x y",
+         "x 1", "1 x", "'abc", "`abc", "x ? z", "x ; z", "x @ z", "_x", "x._y", "1.", ".5", "1.5.2", "1..2", "x.1",
+         "a.b.c(x)", "a.b.c", "x ** 2", "x ** -1", "-x", "--x", "+-x", "!x", "x % z", "x // z", "x != z", "x == z",
+         "x <= z", "x >= z", "x < z", "x > z", "x | g", "(x | g)", "(1 | g)", "((x))", "{{x}}", "f()", "f(())",
+         "f(x)(z)", "f(x)[a]", "x[a](z)", "'a' + x", "True + x", "None", "y ~ 0", "y ~ 1", "y ~ -1", "y ~ 0 + x",
+         "y ~ x - 1", "y ~ x + 0", "y ~ x * z - x:z", "y ~ (x + z) ** 2", "y ~ (x + z) ** z", "y ~ x / z", "y ~ x / (z + w)",
+         "y ~ a:b:c", "y ~ a*b*c", "y ~ x =", "= x", "y ~ x = z", "y ~ f(x, k = z + 1)", "y ~ f(k = 1, x)"]
+
+
 def gen(rng, tier):
-    cases = []
+    cases = [{"s": t, "kind": "fixed"} for t in FIXED]
     kmax25 = 4 if tier == "thorough" else 3
     for k in range(1, kmax25 + 1):
         for tup in itertools.product(ALPHA25, repeat=k):
